@@ -1,27 +1,67 @@
-import Dalek.Proofs.MontGroup
+import Dalek.Proofs.MontXOnly
 /-!
-# C07 — public-key derivation through the Edwards basepoint, DH agreement, Ed25519 → X25519 key conversion
-(property theorems, part 3)
+# C07 — the ladder computes scalar multiplication; public-key derivation through the Edwards basepoint,
+Diffie-Hellman agreement, Ed25519 → X25519 key conversion (property theorems, part 3)
 
 `PublicKey::from(&secret)` goes through `EdwardsPoint::mul_base_clamped(secret).to_montgomery()`, while
-`diffie_hellman`/`x25519` use the Montgomery ladder.  That both compute the same function needs the correctness
-theorem of the x-only ladder with respect to the GROUP (`LadderXOnly`, see `Dalek.Proofs.Mont.LadderXOnly`), which
-is NOT proved in this development.  The theorems that need it carry it as an explicit hypothesis and are named
-`…_partial`.  What is proved unconditionally: the public key is the encoding of `u([clamp k]B)`, and the
-Ed25519 → X25519 conversions agree with each other.
+`diffie_hellman`/`x25519` use the Montgomery ladder.  That both compute the same function is the correctness of
+the x-only ladder with respect to the GROUP law: `ladder_x_only` below (proved in `Dalek/Proofs/MontXOnly.lean`
+from the Edwards group `Ed`, via `π(P) = (1+y : 1−y)`; the doubling and differential-addition formulas are
+verified as rational identities modulo the curve equation, degenerate points included).
+
+Scope: the group-level statements are about `u`-coordinates of points of the CURVE (every honest public key is
+one).  For `u` on the quadratic twist, X25519 is still fully specified by `x25519_eq_rfc7748` (part 1), but no
+group-level meaning is stated here.
 -/
 namespace Dalek.Props.C07
 open Dalek.IR Dalek.Spec Dalek.Model Dalek.Model.Ladder Dalek.Proofs.Mont Dalek.Bridge
 
-/-- **Unconditional**: `PublicKey::from(&secret)` is the canonical encoding of the Montgomery `u`-coordinate
-`(1+y)/(1−y)` of the group element `[clamp(secret)]B`. -/
+/-! ## the ladder is scalar multiplication -/
+
+/-- **`ladder_x_only`**: for every point `Q` of the Edwards curve and every `n < 2^255`, the RFC 7748 ladder on
+the 255 bits of `n`, started from `u(Q) = (1+y)/(1−y)` (`0` for the identity), returns `u([n]Q)`. -/
+theorem ladder_x_only (Q : Ed) (n : Nat) (hn : n < 2 ^ 255) :
+    ladderBitsBE (uOfEd Q) (bitsBE n 255) = uOfEd (n • Q) := ladderXOnly Q n hn
+
+/-- `MontgomeryPoint * Scalar` (model, any 32 scalar bytes, reduced or not) on the encoding of `u(Q)` is the
+encoding of `u([n mod 2^255]Q)`, `n` the little-endian value of the scalar bytes (bit 255 is skipped). -/
+theorem mont_mul_scalar_group (Q : Ed) (sc : List UInt8) (hlen : sc.length = 32) :
+    Ladder.montMul (feToBytes (uOfEd Q)) sc = feToBytes (uOfEd ((leToNat sc % 2 ^ 255) • Q)) := by
+  rw [montMul_eq _ _ hlen]
+  unfold Spec.montMul
+  rw [feFromBytes_enc_uOfEd, ladder_bits_group]
+
+/-- `X25519(k, u(Q))` is `u([clamp k]Q)` for every point `Q` of the curve (torsion components included). -/
+theorem x25519_group (k : List UInt8) (hk : k.length = 32) (Q : Ed) :
+    Spec.x25519 k (feToBytes (uOfEd Q)) = feToBytes (uOfEd (clampedNat k • Q)) :=
+  x25519_of_ed ladderXOnly k hk Q
+
+/-! ## public keys -/
+
+/-- `PublicKey::from(&secret)` is the canonical encoding of the Montgomery `u`-coordinate `(1+y)/(1−y)` of the
+group element `[clamp(secret)]B`. -/
 theorem public_key_spec (secret : List UInt8) :
     publicKey secret = feToBytes (uOfEd (clampedNat secret • Bpt)) := publicKey_eq secret
 
-/-- **Unconditional** (Ed25519 → X25519 conversion): `VerifyingKey::to_montgomery` of the key pair of `seed`
-equals the X25519 public key `PublicKey::from(&StaticSecret::from(signing_key.to_scalar_bytes()))`.  The
-verifying key is `[clamp(lo) mod ℓ]B`, the X25519 path uses the unreduced `[clamp(lo)]B`; they coincide because
-`B` has order `ℓ`. -/
+/-- **`public_key_eq_x25519_base`**: the typed public key (Edwards basepoint multiplication, then
+`to_montgomery`) equals the byte function on the Montgomery basepoint: `PublicKey::from(&secret) =
+x25519(secret, 9)`. -/
+theorem public_key_eq_x25519_base (secret : List UInt8) (hk : secret.length = 32) :
+    publicKey secret = Spec.x25519 secret X25519_BASEPOINT := by
+  rw [publicKey_eq, x25519_unfold, feFromBytes_basepoint, ← uOfEd_Bpt,
+    ladderXOnly Bpt _ (clampedNat_spec hk).2.2]
+
+/-- … hence also equals the MODEL of `x25519(secret, 9)` (ladder over the translated step). -/
+theorem public_key_eq_dalek_x25519_base (secret : List UInt8) (hk : secret.length = 32) :
+    publicKey secret = dalekX25519 secret X25519_BASEPOINT := by
+  rw [public_key_eq_x25519_base secret hk]
+  unfold dalekX25519 mulClamped
+  rw [montMul_eq _ _ (by rw [clampInteger_length, hk])]
+  rfl
+
+/-- **Ed25519 → X25519 conversion**: `VerifyingKey::to_montgomery` of the key pair of `seed` equals the X25519
+public key `PublicKey::from(&StaticSecret::from(signing_key.to_scalar_bytes()))`.  The verifying key is
+`[clamp(lo) mod ℓ]B`, the X25519 path uses the unreduced `[clamp(lo)]B`; they coincide because `B` has order `ℓ`. -/
 theorem verifying_key_to_montgomery_eq_public_key (seed : List UInt8) :
     verifyingKeyToMontgomery seed = publicKey (toScalarBytes seed) := by
   unfold verifyingKeyToMontgomery publicKey toScalarBytes Ed25519.expandedFromBytes
@@ -29,38 +69,45 @@ theorem verifying_key_to_montgomery_eq_public_key (seed : List UInt8) :
     mod_L_nsmul_Bpt]
   rfl
 
-/-- one instance of the hypothesis, checked by evaluation: `X25519`-ladder of `5` on `u = 9` is `u([5]B)` -/
-example : ladderBitsBE 9 (bitsBE 5 255) = Spec.toMontgomery (Pt.smul 5 B) := by decide +kernel
+/-! ## Diffie-Hellman agreement -/
 
-/-- **PARTIAL** (`public_key_eq_x25519_base`): UNDER THE HYPOTHESIS `LadderXOnly` (not proved: the ladder
-computes `u([n]Q)` from `u(Q)` for points `Q` of the curve), the typed public key equals the byte function on
-the basepoint, `PublicKey::from(&secret) = x25519(secret, 9)`. -/
-theorem public_key_eq_x25519_base_partial (h : LadderXOnly) (secret : List UInt8) (hk : secret.length = 32) :
-    publicKey secret = Spec.x25519 secret X25519_BASEPOINT := by
-  rw [publicKey_eq, x25519_unfold, feFromBytes_basepoint, ← uOfEd_Bpt, h Bpt _ (clampedNat_spec hk).2.2]
+/-- **`dh_agree`**: both parties derive the same shared secret,
+`a.diffie_hellman(&PublicKey::from(&b)) = b.diffie_hellman(&PublicKey::from(&a))`, for all secrets. -/
+theorem dh_agree (a b : List UInt8) (ha : a.length = 32) (hb : b.length = 32) :
+    diffieHellman a (publicKey b) = diffieHellman b (publicKey a) := by
+  unfold diffieHellman mulClamped
+  rw [montMul_eq _ _ (by rw [clampInteger_length, ha]), montMul_eq _ _ (by rw [clampInteger_length, hb])]
+  show Spec.x25519 a (publicKey b) = Spec.x25519 b (publicKey a)
+  rw [publicKey_eq, publicKey_eq, x25519_of_ed ladderXOnly a ha, x25519_of_ed ladderXOnly b hb, smul_comm]
 
-/-- **PARTIAL** (`dh_agree`): UNDER THE HYPOTHESIS `LadderXOnly`, both parties derive the same shared secret:
-`a.diffie_hellman(PublicKey::from(&b)) = b.diffie_hellman(PublicKey::from(&a))`. -/
-theorem dh_agree_partial (h : LadderXOnly) (a b : List UInt8) (ha : a.length = 32) (hb : b.length = 32) :
-    Spec.x25519 a (publicKey b) = Spec.x25519 b (publicKey a) := by
-  rw [publicKey_eq, publicKey_eq, x25519_of_ed h a ha, x25519_of_ed h b hb, smul_comm]
+/-- the shared secret is `u([clamp a · clamp b]B)` -/
+theorem dh_shared_secret (a b : List UInt8) (ha : a.length = 32) :
+    Spec.x25519 a (publicKey b) = feToBytes (uOfEd ((clampedNat a * clampedNat b) • Bpt)) := by
+  rw [publicKey_eq, x25519_of_ed ladderXOnly a ha, mul_nsmul']
 
-/-- **PARTIAL**: the same for an arbitrary base point of the curve (e.g. a point with a torsion component):
-`X25519(a, X25519(b, u(Q))) = X25519(b, X25519(a, u(Q)))`, under `LadderXOnly`. -/
-theorem dh_commute_partial (h : LadderXOnly) (a b : List UInt8) (ha : a.length = 32) (hb : b.length = 32)
-    (Q : Ed) :
+/-- X25519 commutes on every base point of the curve (e.g. a public key with a torsion component):
+`X25519(a, X25519(b, u(Q))) = X25519(b, X25519(a, u(Q)))`. -/
+theorem dh_commute (a b : List UInt8) (ha : a.length = 32) (hb : b.length = 32) (Q : Ed) :
     Spec.x25519 a (Spec.x25519 b (feToBytes (uOfEd Q))) = Spec.x25519 b (Spec.x25519 a (feToBytes (uOfEd Q))) := by
-  rw [x25519_of_ed h b hb, x25519_of_ed h a ha, x25519_of_ed h a ha, x25519_of_ed h b hb, smul_comm]
+  rw [x25519_of_ed ladderXOnly b hb, x25519_of_ed ladderXOnly a ha, x25519_of_ed ladderXOnly a ha,
+    x25519_of_ed ladderXOnly b hb, smul_comm]
+
+/-- one instance, checked by evaluation: the ladder of `5` on `u = 9` is `u([5]B)` -/
+example : ladderBitsBE 9 (bitsBE 5 255) = Spec.toMontgomery (Pt.smul 5 B) := by decide +kernel
 
 /-! ## axiom audit -/
 
-/-- info: 'Dalek.Props.C07.public_key_spec' depends on axioms: [propext, Classical.choice, Quot.sound] -/
-#guard_msgs in #print axioms public_key_spec
+/-- info: 'Dalek.Props.C07.ladder_x_only' depends on axioms: [propext, Classical.choice, Quot.sound] -/
+#guard_msgs in #print axioms ladder_x_only
+/-- info: 'Dalek.Props.C07.mont_mul_scalar_group' depends on axioms: [propext, Classical.choice, Quot.sound] -/
+#guard_msgs in #print axioms mont_mul_scalar_group
+/-- info: 'Dalek.Props.C07.public_key_eq_x25519_base' depends on axioms: [propext, Classical.choice, Quot.sound] -/
+#guard_msgs in #print axioms public_key_eq_x25519_base
 /-- info: 'Dalek.Props.C07.verifying_key_to_montgomery_eq_public_key' depends on axioms: [propext, Classical.choice, Quot.sound] -/
 #guard_msgs in #print axioms verifying_key_to_montgomery_eq_public_key
-/-- info: 'Dalek.Props.C07.public_key_eq_x25519_base_partial' depends on axioms: [propext, Classical.choice, Quot.sound] -/
-#guard_msgs in #print axioms public_key_eq_x25519_base_partial
-/-- info: 'Dalek.Props.C07.dh_agree_partial' depends on axioms: [propext, Classical.choice, Quot.sound] -/
-#guard_msgs in #print axioms dh_agree_partial
+/-- info: 'Dalek.Props.C07.dh_agree' depends on axioms: [propext, Classical.choice, Quot.sound] -/
+#guard_msgs in #print axioms dh_agree
+/-- info: 'Dalek.Props.C07.dh_commute' depends on axioms: [propext, Classical.choice, Quot.sound] -/
+#guard_msgs in #print axioms dh_commute
 
 end Dalek.Props.C07
